@@ -4,6 +4,7 @@ C19 — linked entries (link_to) read back verified target bytes, never copy or 
 import Cacache.Lemmas.ReadBack
 import Cacache.Props.C01
 import Cacache.Props.C15
+import Cacache.Lemmas.LinkRefine
 
 namespace Cacache.C19
 open Prog
@@ -78,5 +79,87 @@ theorem linkto_size_enforced (l : Linker) (n : Nat) (hn : l.opts.size = some n) 
   all_goals first
     | (intro s h; cases h)
     | trivial
+
+/-! ### total correctness of the link commit (healthy run), incl. the replacement of an earlier link
+(F18).  Proofs in `Lemmas/LinkRefine.lean`; `hd` / `ht`: the directory chains of the address and of
+`<cache>/tmp` are absent or directories, so that `create_dir_all` succeeds. -/
+
+open LinkRefine Refine CacheRefine in
+/-- **An earlier link at the address is replaced** — whatever it pointed at (stale, dangling or
+good): the commit answers the digest of the target just read, the address is a link to that
+target afterwards, the temp link it went through is gone, and nothing else changes (apart from
+directories created on the way). -/
+theorem relink_replaces_old_link (l : Linker) (fs : FS) (cpath : Path) (t0 : Target)
+    (hk : l.key = none) (hs : l.opts.sri = none) (hz : l.opts.size = none)
+    (hcp : contentPath l.cache (Sri.compute cfg.H l.algo l.data) = some cpath)
+    (hd : ∀ q, q ≠ [] → q <+: FS.parent cpath → NoneOrDir fs q)
+    (ht : ∀ q, q ≠ [] → q <+: l.cache ++ [dTmp] → NoneOrDir fs q)
+    (hold : fs.get cpath = some (.link t0)) :
+    (run env (lcommit cfg l) fs).1 = .ok (Sri.compute cfg.H l.algo l.data) ∧
+    (run env (lcommit cfg l) fs).2.1.get cpath = some (.link l.target) ∧
+    (run env (lcommit cfg l) fs).2.1.get ((l.cache ++ [dTmp]) ++ [tmpName fs.next]) = none ∧
+    (∀ q, q ≠ cpath → q ≠ (l.cache ++ [dTmp]) ++ [tmpName fs.next] →
+      Grow2 fs (run env (lcommit cfg l) fs).2.1 q (FS.parent cpath) (l.cache ++ [dTmp])) :=
+  let h := LinkRefine.relink_replaces_old_link cfg env l fs cpath t0 hk hs hz hcp hd ht hold
+  ⟨h.1, h.2.1, h.2.2.1, h.2.2.2.1⟩
+
+open LinkRefine Refine CacheRefine in
+/-- A free address gets the link. -/
+theorem link_fresh_address (l : Linker) (fs : FS) (cpath : Path)
+    (hk : l.key = none) (hs : l.opts.sri = none) (hz : l.opts.size = none)
+    (hcp : contentPath l.cache (Sri.compute cfg.H l.algo l.data) = some cpath)
+    (hd : ∀ q, q ≠ [] → q <+: FS.parent cpath → NoneOrDir fs q)
+    (hfree : fs.get cpath = none) :
+    (run env (lcommit cfg l) fs).1 = .ok (Sri.compute cfg.H l.algo l.data) ∧
+    (run env (lcommit cfg l) fs).2.1.get cpath = some (.link l.target) ∧
+    (∀ q, q ≠ cpath → Grow fs (run env (lcommit cfg l) fs).2.1 q (FS.parent cpath)) :=
+  let h := LinkRefine.link_fresh_address cfg env l fs cpath hk hs hz hcp hd hfree
+  ⟨h.1, h.2.1, h.2.2.1⟩
+
+open LinkRefine Refine CacheRefine in
+/-- **Regular content at the address is never replaced by a link** (no clobbering of what a
+writer stored): the commit answers ok and the file stays. -/
+theorem link_keeps_regular_content (l : Linker) (fs : FS) (cpath : Path) (b : Bytes)
+    (hk : l.key = none) (hs : l.opts.sri = none) (hz : l.opts.size = none)
+    (hcp : contentPath l.cache (Sri.compute cfg.H l.algo l.data) = some cpath)
+    (hd : ∀ q, q ≠ [] → q <+: FS.parent cpath → NoneOrDir fs q)
+    (hold : fs.get cpath = some (.file b)) :
+    (run env (lcommit cfg l) fs).1 = .ok (Sri.compute cfg.H l.algo l.data) ∧
+    (run env (lcommit cfg l) fs).2.1.get cpath = some (.file b) ∧
+    (∀ q, Grow fs (run env (lcommit cfg l) fs).2.1 q (FS.parent cpath)) :=
+  let h := LinkRefine.link_keeps_regular_content cfg env l fs cpath b hk hs hz hcp hd hold
+  ⟨h.1, h.2.1, h.2.2.1⟩
+
+open LinkRefine Refine CacheRefine in
+/-- **After the relink the returned address reads the target's bytes** through the library's
+verified read — whatever the earlier link pointed at. -/
+theorem relinked_address_readHash (l : Linker) (fs : FS) (cpath : Path) (t0 : Target)
+    (hk : l.key = none) (hs : l.opts.sri = none) (hz : l.opts.size = none)
+    (hcp : contentPath l.cache (Sri.compute cfg.H l.algo l.data) = some cpath)
+    (hd : ∀ q, q ≠ [] → q <+: FS.parent cpath → NoneOrDir fs q)
+    (ht : ∀ q, q ≠ [] → q <+: l.cache ++ [dTmp] → NoneOrDir fs q)
+    (hold : fs.get cpath = some (.link t0))
+    (tp : Path) (htgt : l.target = .abs tp) (htp : tp ≠ []) (hout : ¬ l.cache <+: tp)
+    (hfile : fs.get tp = some (.file l.data)) :
+    (run env (readHash cfg l.cache (Sri.compute cfg.H l.algo l.data))
+      (run env (lcommit cfg l) fs).2.1).1 = .ok l.data :=
+  LinkRefine.relinked_address_readHash cfg env l fs cpath t0 hk hs hz hcp hd ht hold tp htgt htp hout hfile
+
+open LinkRefine Refine CacheRefine in
+/-- **Keyed: after the relink the key reads the target's bytes** (lookup, then the verified read by
+the recorded address), on a healthy index. -/
+theorem relinked_key_reads_target (l : Linker) (k : Bytes) (fs : FS) (cpath : Path) (t0 : Target)
+    (hk : l.key = some k) (hs : l.opts.sri = none) (hz : l.opts.size = none)
+    (hcp : contentPath l.cache (Sri.compute cfg.H l.algo l.data) = some cpath)
+    (hd : ∀ q, q ≠ [] → q <+: FS.parent cpath → NoneOrDir fs q)
+    (ht : ∀ q, q ≠ [] → q <+: l.cache ++ [dTmp] → NoneOrDir fs q)
+    (hI : HealthyIndex cfg l.cache fs)
+    (hold : fs.get cpath = some (.link t0))
+    (hw : OptsWF k l.opts) (hlen : l.data.length ≤ Rec.u64Max)
+    (tp : Path) (htgt : l.target = .abs tp) (htp : tp ≠ []) (hout : ¬ l.cache <+: tp)
+    (hfile : fs.get tp = some (.file l.data)) :
+    (run env (read cfg l.cache k) (run env (lcommit cfg l) fs).2.1).1 = .ok l.data :=
+  LinkRefine.relinked_key_reads_target cfg env l k fs cpath t0 hk hs hz hcp hd ht hI hold hw hlen tp htgt
+    htp hout hfile
 
 end Cacache.C19
